@@ -89,7 +89,11 @@ def do_run(sid, props):
             print("patch does not apply:", out); return 2
         for p in props:
             t0 = time.time()
+            evf = os.path.join(HERE, "evidence", p + ".json")
+            saved = open(evf).read() if os.path.exists(evf) else None
             rc, out = sh("./check %s --tier quick" % p, cwd=HERE)
+            if saved is not None:   # evidence files describe runs on the unchanged tree only
+                open(evf, "w").write(saved)
             lines = [l for l in out.split("\n") if l.startswith(("VIOLATION", "OK ", "KNOWN-FINDING", "DETAIL"))]
             replay = None
             m = re.search(r"VIOLATION property=\S+ replay=(\S+)", out)
